@@ -166,71 +166,11 @@ def sampleOK : ConfV :=
   { rto := 1, wto := 1, wqs := 512, ump := 1452,
     paths := [{ name := b!"cam", nameValid := true, source := b!"publisher", recordPath := b!"%path/%s" }] }
 
-/-! ### the documented arity of `rtspUDPSourcePortRange` (open finding, class `udp-port-range-arity`) -/
-
-theorem rangeArity_of_keys : ∀ (a b : List PathV), a.map key = b.map key →
-    a.any (fun p => p.udpRange != 2) = b.any (fun p => p.udpRange != 2)
-  | [], [], _ => rfl
-  | [], _ :: _, h => by simp at h
-  | _ :: _, [], h => by simp at h
-  | x :: a, y :: b, h => by
-    simp only [List.map_cons, List.cons.injEq] at h
-    have e : x.udpRange = y.udpRange := by have := h.1; simp only [key, Prod.mk.injEq] at this; exact this.2.2.2.2.2
-    simp only [List.any_cons, e, rangeArity_of_keys a b h.2]
-
-/-- the property at full strength — every documented constraint incl. "the port range is a pair" — is FALSE for
-the current `Validate`: nothing checks the length of `rtspUDPSourcePortRange` -/
-def validate_ok_constraints_full : Prop :=
-  ∀ (c c' : ConfV), (c.paths.map (·.name)).Nodup → validate c = .ok c' → constraintsFull c' = true
-
-/-- witness: the accepted sample configuration with `rtspUDPSourcePortRange: [5]` on its path -/
+/-- regression record of F-C10d (fixed in /repo 9ca8a07): `Path.validate` now rejects an `rtspUDPSourcePortRange` that
+is not a pair, so "the port range has exactly two entries" is one of the per-path constraints `validate_ok_constraints`
+proves. The configuration that used to be accepted: -/
 def sampleRange1 : ConfV :=
   { sampleOK with paths := [{ name := b!"cam", nameValid := true, source := b!"publisher", recordPath := b!"%path/%s", udpRange := 1 }] }
-
-theorem validate_ok_constraints_witness : ¬ validate_ok_constraints_full := by
-  intro h
-  have hd : (match validate sampleRange1 with | .ok c' => !constraintsFull c' | .error _ => false) = true := by decide
-  have hv : ∃ c', validate sampleRange1 = .ok c' ∧ constraintsFull c' = false := by
-    cases hc : validate sampleRange1 with
-    | error e => rw [hc] at hd; cases hd
-    | ok c' => rw [hc] at hd; exact ⟨c', rfl, by simpa using hd⟩
-  obtain ⟨c', h1, h2⟩ := hv
-  have := h sampleRange1 c' (by decide) h1
-  rw [h2] at this; cases this
-
-/-- partial: outside the class (every port range of the input is a pair) all documented constraints hold -/
-theorem validate_ok_constraints_partial {c c' : ConfV} (hn : (c.paths.map (·.name)).Nodup)
-    (hr : rangeArityClass c = false) (h : validate c = .ok c') : constraintsFull c' = true := by
-  unfold constraintsFull
-  rw [validate_ok_constraints hn h]
-  have : rangeArityClass c' = rangeArityClass c := rangeArity_of_keys _ _ (validate_ok_keys hn h)
-  rw [this, hr]; rfl
-
-/-- with the proposed length check in `Path.validate` the property holds at full strength -/
-theorem validateFixed_ok_constraintsFull {c c' : ConfV} (hn : (c.paths.map (·.name)).Nodup)
-    (h : validateFixed c = .ok c') : constraintsFull c' = true := by
-  unfold validateFixed at h
-  cases hv : validate c with
-  | error e => simp [hv] at h
-  | ok c1 =>
-    simp only [hv] at h
-    by_cases hc : rangeArityClass c1 = true
-    · simp [hc] at h
-    · have hc' : rangeArityClass c1 = false := by simpa using hc
-      simp only [hc', Bool.false_eq_true, if_false] at h
-      injection h with h; subst h
-      unfold constraintsFull
-      rw [validate_ok_constraints hn hv, hc']; rfl
-
-/-- … and accepts exactly the configurations `Validate` accepts outside the class -/
-theorem validateFixed_agrees {c : ConfV} (hn : (c.paths.map (·.name)).Nodup) (hr : rangeArityClass c = false) :
-    validateFixed c = validate c := by
-  unfold validateFixed
-  cases hv : validate c with
-  | error e => rfl
-  | ok c1 =>
-    have : rangeArityClass c1 = rangeArityClass c := rangeArity_of_keys _ _ (validate_ok_keys hn hv)
-    simp [this, hr]
 
 /-- `writeQueueSize` of an accepted configuration really is a power of two (the bit trick of the code is exact). -/
 theorem accepted_wqs_pow2 {c c' : ConfV} (hn : (c.paths.map (·.name)).Nodup) (h : validate c = .ok c') :
@@ -273,6 +213,7 @@ theorem two_primaries_rejected {c : ConfV} (hn : (c.paths.map (·.name)).Nodup)
 /-! ### non-vacuity and sanity examples (tests, not theorems) -/
 
 example : (validate sampleOK).toBool = true := by decide
+example : (validate sampleRange1).toBool = false := by decide
 example : (match validate sampleOK with | .ok c' => constraints c' | .error _ => false) = true := by decide
 -- a writeQueueSize that is not a power of two is rejected
 example : (validate { sampleOK with wqs := 6 }).toBool = false := by decide
